@@ -354,6 +354,11 @@ def str_method(interp, recv, name, args, kwargs, fr):
         if not parts:
             return ""
         return z3.Concat(parts) if len(parts) > 1 else parts[0]
+    if name in ("startswith", "endswith") and len(args) == 1 and not kwargs:
+        # exact: z3 str.prefixof / str.suffixof; a tuple argument is the disjunction, as in Python
+        alts = list(args[0]) if isinstance(args[0], tuple) else [args[0]]
+        op = z3.PrefixOf if name == "startswith" else z3.SuffixOf
+        return z3.Or([op(zstr(a), zstr(recv)) for a in alts]) if len(alts) != 1 else op(zstr(alts[0]), zstr(recv))
     if name in ("lower", "upper", "strip"):
         f = z3.Function("py_str_" + name, z3.StringSort(), z3.StringSort())
         interp.trusted.add(f"engine: str.{name} is an uninterpreted function String->String"
